@@ -255,6 +255,21 @@ def c14(run):
         why = check_law_output(lines, c, d, a, b, ans)
         if why:
             run.fail({'program': src, 'a': a, 'b': b, 'printed': lines, 'outcome': c + ' ' + d}, why)
+    # --- compound assignment whose operands have EFFECTS on the destination (a called function overwrites it, replaces
+    # the whole array a cell of which is the destination, or fails): `let x be op e` against `let x be x op e`
+    eff = [effect_programs(rng, U) for _ in range(run.n(250, 6000))]
+    ereqs = []
+    for p1, p2, _ in eff:
+        ereqs += [run_req(p1), run_req(p2)]
+    em, eim = run.tie(ereqs, proj=proj_run, functional=True, desc=lambda i: {'program': eff[i // 2][i % 2]})
+    for i, (p1, p2, shape) in enumerate(eff):
+        r1, r2 = eim[2 * i], eim[2 * i + 1]
+        if r1 is None or r2 is None:
+            continue
+        run.case(p1, True, law='compound-with-effects', shape=shape)
+        if proj_run(r1) != proj_run(r2):
+            run.fail({'compound': p1, 'expanded': p2, 'answers': [r1[:300], r2[:300]]},
+                     '`let x be op e` and `let x be x op e` differ when e has an effect on x')
     # --- the IEEE facts the theorems take as hypotheses (NumLaws: int_exact / add_nat / mul_nat, add_negzero), sampled on
     # the implementation: exact integer arithmetic below 2^53
     lreqs, lwant = [], []
@@ -294,6 +309,41 @@ def c14(run):
         elif r2 != want:
             run.fail({'value': a, 'k': k, 'after build': r1, 'after knock': r2},
                      'building %s up %d times and knocking it down %d times gives %s' % (a, k, k, r2), key='bk:%s:%d' % (a, k))
+
+
+def effect_programs(rng, U):
+    """(compound, expanded, shape): the same program with `let D be op E…` and with `let D be D op E…`; the operands call
+    a function that assigns to D (or to the array holding D), so the order 'read D, then evaluate E' is observable"""
+    small = [u for u in U if not u.startswith('[') or len(u) < 40]
+    a, b, c = rng.choice(small), rng.choice(small), rng.choice(small)
+    op = rng.choice(['plus', 'plus', 'minus', 'multiply', 'divide'])
+    while op == 'multiply' and (big_repeat(a, b) or big_repeat(c, b) or big_repeat(a, c) or big_repeat(b, a) or big_repeat(b, c)):
+        b = rng.choice(small)
+    A, B, C_, D, F, P = sv('aa'), sv('bb'), sv('cc'), sv('dd'), sv('ff'), sv('pp')
+    pre = progs.setup_value(a, A) + progs.setup_value(b, B) + progs.setup_value(c, C_)
+    shape = rng.choice(['var', 'var', 'cell', 'cell-replaced', 'two-operands', 'unset'])
+    if shape in ('var', 'two-operands', 'unset'):
+        body = [put(v(C_), D), ('return', v(P), False, False)]
+        init = [] if shape == 'unset' else [put(v(A), D)]
+        lhs, cur = ('lid', D), v(D)
+    elif shape == 'cell':
+        body = [put_at(v(C_), v(D), num(0)), ('return', v(P), False, False)]
+        init = [put_at(v(A), v(D), num(0))]
+        lhs, cur = ('lsub', v(D), num(0)), sub(v(D), num(0))
+    else:
+        body = [put(v(C_), D), ('return', v(P), False, False)]
+        init = [put_at(v(A), v(D), num(0))]
+        lhs, cur = ('lsub', v(D), num(0)), sub(v(D), num(0))
+    func = ('func', F, [P], body)
+    operands = [call(F, v(B))] if shape != 'two-operands' else rng.choice([[v(B), call(F, v(B))], [call(F, v(B)), v(B)]])
+    tail = [say(st('after')), say(cur), say(v(D))]
+    comp = ('assign', lhs, op, operands, 'let')
+    expd = ('assign', lhs, None, [('bin', op, cur, operands)], 'let')
+    seed = rng.random()
+    import random as _r
+    p1 = progs.render(_r.Random(seed), [[func], pre + init + [comp] + tail], plain=True)
+    p2 = progs.render(_r.Random(seed), [[func], pre + init + [expd] + tail], plain=True)
+    return p1, p2, shape
 
 
 def law_program(rng, a, b):
@@ -1360,11 +1410,33 @@ def recase_mentions(t, rng):
     return t
 
 
+def confusable_family(rng):
+    """distinct names that differ only in where the words break, in the kind of name or in the article:
+    `Black Sabbath` / `Blacks Abbath` / `Black Sab Bath` / `blacksabbath` / `the blacksabbath` / `my blacksabbath` / …"""
+    while True:
+        letters = ''.join(rng.choice('bcdfglmnprst') + rng.choice('aeiou') for _ in range(rng.randint(3, 5)))
+        cuts = sorted(rng.sample(range(2, len(letters) - 1), min(3, len(letters) - 3)))
+        fam = [('proper', [letters[:c].capitalize(), letters[c:].capitalize()]) for c in cuts]
+        if len(cuts) >= 2:
+            a, b = cuts[0], cuts[-1]
+            fam.append(('proper', [letters[:a].capitalize(), letters[a:b].capitalize(), letters[b:].capitalize()]))
+        fam.append(('proper', [letters[:cuts[0]].capitalize(), letters[cuts[0]:].capitalize(), letters[:cuts[0]].capitalize()]))
+        fam += [('simple', letters), ('common', 'the', letters), ('common', 'my', letters), ('common', 'your', letters[cuts[0]:]),
+                ('common', 'the', letters[cuts[0]:]), ('simple', letters[cuts[0]:]), ('simple', letters + letters)]
+        words = set()
+        for f in fam:
+            words |= set([f[1]] if f[0] == 'simple' else [f[2]] if f[0] == 'common' else f[1])
+        if all(w.lower() not in rock.KEYWORDS for w in words):
+            rng.shuffle(fam)
+            return fam
+
+
 def c15(run):
     rng = run.rng
     n = run.n(500, 20000)
     run.rule = ('programs of the C04/C05/C06 generators x an injective renaming of every name into a fresh simple/common/proper name '
-                '(ASCII, accented and adversarial letters: dotted I, Kelvin sign, sharp s) x per-mention recasing of names and keywords; '
+                '(ASCII, accented and adversarial letters: dotted I, Kelvin sign, sharp s; in a third of the programs the fresh names form a '
+                'CONFUSABLE family: same letters with different word breaks / kinds / articles) x per-mention recasing of names and keywords; '
                 'original and transformed program run on the implementation, outputs and outcome class compared (model-free); '
                 'non-trivial = the program mentions >= 3 distinct names; distinct by program text')
     cases = []
@@ -1385,9 +1457,10 @@ def c15(run):
         fresh = {}
         used = set(names)
         pool = list(names)
+        family = confusable_family(rng) if rng.random() < 0.35 else []
         for k in sorted(names, key=str):
             while True:
-                cand = g.fresh_name()
+                cand = family.pop() if family else g.fresh_name()
                 if rng.random() < 0.15:
                     w = rng.choice(ADVERSARIAL)
                     # a proper-name word must start with an uppercase letter (titlecase ǅ and ß do not qualify)
